@@ -14,6 +14,7 @@ from pydrobert.torch import config
 
 from mc.runner import Ctx
 from mc.oracles import feats as O
+from mc import guards as GD
 
 PROP = "C18"
 LEVEL = "exploration"
@@ -34,6 +35,21 @@ RULE = (
     "for 2-D (T,2) and 3-D (T,2,3)-shaped inputs (time axis anywhere) x T in 1..5 (1..7) x "
     "functional/module x float64/float32. Returns: every r in {-1,0,1,2}^T, T in 0..4, N=1 and every "
     "ordered pair of sequences for N=2, gamma in {0,1/2,1,2}, both layouts, functional and module. "
+    "Guard passes (mc/guards.py): (1) every tensor handed to accumulate / forward / mean_var_norm / "
+    "feat_deltas / FeatureDeltas / time_distributed_return / TimeDistributedReturn is compared with a "
+    "clone taken before the call, in every case of every pass; (2) kept results: statistics of every "
+    "prefix store, the normalised output, deltas and returns must be unchanged after a later call of the "
+    "same function / module object on other data; (3) layouts: every history of the full pool, deltas "
+    "(order 2, width 1..2, 4 modes, every dim spelling, T in {1,3,5}) and every reward tensor with T<=3 "
+    "(N=1: T<=4) again as offset view and as transposed-dense view, float32 and float64; (4) object "
+    "histories: ONE FeatureDeltas object per (order,width) in {(0,1),(1,1),(1,2),(2,1),(2,2)} driven "
+    "through every dim spelling of rank 2, 3, 2 with dim/time_dim/concatenate/pad_mode/value reassigned "
+    "via the public attributes, T and rank changing, train/eval and float/double switched, == oracle and "
+    "== fresh object; ONE MeanVarianceNormalization object accumulating rank-2 and rank-3 blocks mixed, "
+    "forward with dim and eps reassigned, a second round; ONE TimeDistributedReturn object with gamma / "
+    "batch_first reassigned over T in 1..5, N in 1..3; the command runs hundreds of times in one process "
+    "with changing flags (cli pass); (6) one larger instance each: 600 frames x 13 coefficients in 7 "
+    "blocks, deltas of a 300 x 13 input (orders 2-3, widths 2-3), returns for T=40, N=20. "
     "All cases distinct by construction (cartesian products of duplicate-free generators). Non-trivial: "
     "MVN history with >=2 chunks; delta case with order>=1; return case with T>=2 and gamma != 0."
 )
@@ -50,6 +66,11 @@ ASSUMPTIONS = [
     "on the extended sequence; reflect/circular only where the padding exists (pad<T / pad<=T); non-zero "
     "fill value only with constant mode",
     "the command is run in-process with --num-workers 0; DataLoader worker processes are trusted",
+    "FeatureDeltas.order / .width are not reassigned on a live object (the filter buffer is built for them "
+    "at construction; the functional asserts the match) - only dim, time_dim, concatenate, pad_mode, value",
+    "larger returns instance: gamma=2 in float64 only (2^39-weighted sums cancel catastrophically in "
+    "float32), gamma=1/2 at 1e-5; T stays below the underflow of gamma^T (DESIGN sec. 4)",
+    "guard class 5 (don't-care regions) does not apply to C18: no input position is declared ignored",
     "TorchScript-compiled and CUDA variants not explored",
 ]
 BUDGET_S = {"quick": 240, "thorough": 2400}
@@ -69,6 +90,40 @@ def _close(a, b, tol):
     if isinstance(a, float) and (math.isnan(a) or math.isnan(b)):
         return False
     return abs(a - b) <= tol * (1.0 + abs(b))
+
+
+# =================================================================== guards (mc/guards.py)
+LAYOUTS = ("offset-view", "transposed-dense")
+
+
+def _relayout(x, name):
+    """Same values in another memory layout; None if the layout does not exist for x."""
+    if name in (None, "as-is"):
+        return x
+    for n, t in GD.layouts(x):
+        if n == name:
+            return t
+    return None
+
+
+def _args_unchanged(ctx, api, case, pairs):
+    """pairs: (tensor handed to the library, clone taken before the call)."""
+    for x, xc in pairs:
+        if x.shape != xc.shape or not torch.equal(x, xc):
+            ctx.violation({"api": api, "symptom": "argument-modified"}, case,
+                          {"before": xc.tolist(), "after": x.tolist()})
+            return False
+    return True
+
+
+def _kept_unchanged(ctx, api, case, kept, what):
+    try:
+        kept.check()
+        return True
+    except GD.GuardViolation as e:
+        ctx.violation({"api": api, "symptom": "earlier-result-changed-by-later-call", "what": what}, case,
+                      {"error": str(e)})
+        return False
 
 
 # ======================================================================== MVN: data / layout
@@ -164,7 +219,7 @@ def _check_normalised(ctx, api, case, y_frames, frames, mean, std, zero, bessel,
     return True
 
 
-def _mvn_history(ctx, chunks, history, rank, pos, dim, bessel, dtname, mode, nontrivial=None):
+def _mvn_history(ctx, chunks, history, rank, pos, dim, bessel, dtname, mode, nontrivial=None, layout="as-is"):
     """One accumulation history on a fresh module.  mode: 'final' (one store at the end),
     'prefix' (store(delete_stats=False) after every call), 'reuse' (a second round on the same
     module after store())."""
@@ -172,10 +227,21 @@ def _mvn_history(ctx, chunks, history, rank, pos, dim, bessel, dtname, mode, non
     nfeat = len(next(iter(chunks.values()))[0])
     ids = [c for b in history for c in b]
     case = {"kind": "mvn", "chunks": {str(k): v for k, v in chunks.items()}, "history": history,
-            "rank": rank, "pos": pos, "dim": dim, "bessel": bessel, "dtype": dtname, "mode": mode}
+            "rank": rank, "pos": pos, "dim": dim, "bessel": bessel, "dtype": dtname, "mode": mode,
+            "layout": layout}
     ctx.case(1, (1 if len(ids) > 1 else 0) if nontrivial is None else nontrivial)
     tol = 1e-9 if dtname == "float64" else 2e-5
     api = "MeanVarianceNormalization"
+
+    def tensor(frames):
+        x = _relayout(_layout(frames, rank, pos, dtype), layout)
+        return _layout(frames, rank, pos, dtype) if x is None else x
+
+    def accumulate(mvn, frames):
+        x = tensor(frames)
+        xc = x.clone()
+        mvn.accumulate(x)
+        return _args_unchanged(ctx, api + ".accumulate", case, [(x, xc)])
 
     def store(mvn, nframes, **kw):
         """True if stored, False if a documented raise, None if a violation was recorded."""
@@ -194,8 +260,10 @@ def _mvn_history(ctx, chunks, history, rank, pos, dim, bessel, dtname, mode, non
     try:
         mvn = M.MeanVarianceNormalization(dim)
         seen = []
+        kept = []
         for block in history:
-            mvn.accumulate(_layout(_frames_of(chunks, block), rank, pos, dtype))
+            if not accumulate(mvn, _frames_of(chunks, block)):
+                return
             seen.extend(block)
             if mode == "prefix":
                 fr = _frames_of(chunks, seen)
@@ -205,19 +273,31 @@ def _mvn_history(ctx, chunks, history, rank, pos, dim, bessel, dtname, mode, non
                 if st and not _cmp_stats(ctx, api, case, mvn.mean, mvn.std, fr, bessel,
                                          {"after": "prefix-store"}):
                     return
+                if st:
+                    kept.append(GD.Kept(mvn.mean, mvn.std))  # must survive later accumulate/store calls
         frames = _frames_of(chunks, ids)
         st = store(mvn, len(frames))
         if not st:
             return
         if not _cmp_stats(ctx, api, case, mvn.mean, mvn.std, frames, bessel):
             return
+        for kp in kept:
+            if not _kept_unchanged(ctx, api + ".store", case, kp, "stored statistics of an earlier store()"):
+                return
         if mvn.count is not None or mvn.sum is not None or mvn.sumsq is not None:
             ctx.violation({"api": api + ".store", "symptom": "statistics-not-deleted"}, case, {})
             return
         # normalise the pooled data (canonical chunk order) with the stored statistics
         pooled = _frames_of(chunks, sorted(ids))
         emean, estd, zero = O.pooled_stats(pooled, bessel)
-        y = mvn(_layout(pooled, rank, pos, dtype))
+        xin = tensor(pooled)
+        xc = xin.clone()
+        stats = GD.Kept(mvn.mean, mvn.std)
+        y = mvn(xin)
+        if not _args_unchanged(ctx, api, case, [(xin, xc)]):
+            return
+        if not _kept_unchanged(ctx, api, case, stats, "stored statistics after forward"):
+            return
         if y.dtype != dtype or tuple(y.shape) != tuple(_layout(pooled, rank, pos, dtype).shape):
             ctx.violation({"api": api, "symptom": "wrong-shape-or-dtype"}, case,
                           {"shape": tuple(y.shape), "dtype": str(y.dtype)})
@@ -226,29 +306,37 @@ def _mvn_history(ctx, chunks, history, rank, pos, dim, bessel, dtname, mode, non
                                  bessel, tol, False):
             return
         if mode == "reuse":
-            # the module starts from scratch after store(): second round with the first block only
+            # the module starts from scratch after store(): second round with the first block only;
+            # the result kept from the first round must survive the later calls on the same object
+            ykept = GD.Kept(y)
             block = history[0]
             fr = _frames_of(chunks, block)
-            mvn.accumulate(_layout(fr, rank, pos, dtype))
+            if not accumulate(mvn, fr):
+                return
             st = store(mvn, len(fr))
             if st:
                 _cmp_stats(ctx, api, case, mvn.mean, mvn.std, fr, bessel, {"after": "reuse"})
+                mvn(tensor(fr) + 1.0)
+            _kept_unchanged(ctx, api, case, ykept, "normalised output of an earlier call")
     except Exception as e:
         ctx.violation({"api": api, "symptom": "raises", "type": type(e).__name__, "bessel": bessel},
                       case, {"error": str(e)[-300:]})
 
 
-def _mvn_own(ctx, frames, rank, pos, dim, dtname, how):
+def _mvn_own(ctx, frames, rank, pos, dim, dtname, how, layout="as-is"):
     """No stored statistics => the input's own (population) statistics."""
     dtype = DTYPES[dtname]
     nfeat = len(frames[0])
     case = {"kind": "own", "frames": frames, "rank": rank, "pos": pos, "dim": dim,
-            "dtype": dtname, "how": how}
+            "dtype": dtname, "how": how, "layout": layout}
     ctx.case(1, 1 if len(frames) > 1 else 0)
     tol = 1e-9 if dtname == "float64" else 2e-5
     api = "mean_var_norm" if how == "functional" else "MeanVarianceNormalization"
     try:
-        x = _layout(frames, rank, pos, dtype)
+        x = _relayout(_layout(frames, rank, pos, dtype), layout)
+        if x is None:
+            x = _layout(frames, rank, pos, dtype)
+        xc = x.clone()
         if how == "functional":
             y = F.mean_var_norm(x, dim)
         else:
@@ -257,6 +345,8 @@ def _mvn_own(ctx, frames, rank, pos, dim, dtname, how):
                 mvn.accumulate(x + 1.0)
                 mvn.accumulate(x)
             y = mvn(x)
+        if not _args_unchanged(ctx, api, case, [(x, xc)]):
+            return
         mean, std, zero = O.pooled_stats(frames, False)
         _check_normalised(ctx, api, case, _unlayout(y, pos, nfeat), frames, mean, std, zero, False, tol, True)
     except Exception as e:
@@ -400,10 +490,13 @@ def _delta_values(shape, seed):
     return [rng.randint(-16, 16) / 4.0 for _ in range(n)]
 
 
-def _delta_case(ctx, flat, shape, dim, time_dim, concatenate, order, width, mode, value, dtname, api):
+def _delta_case(ctx, flat, shape, dim, time_dim, concatenate, order, width, mode, value, dtname, api,
+                layout="as-is", guard=False):
+    """guard=True: additionally keep the result, call the same function / module object again on
+    other data and demand that the kept result did not change."""
     case = {"kind": "delta", "flat": flat, "shape": list(shape), "dim": dim, "time_dim": time_dim,
             "concatenate": concatenate, "order": order, "width": width, "mode": mode, "value": value,
-            "dtype": dtname, "api": api}
+            "dtype": dtname, "api": api, "layout": layout, "guard": guard}
     D = len(shape)
     T = shape[time_dim % D]
     if not O.pad_admitted(T, order * width, mode):
@@ -413,19 +506,34 @@ def _delta_case(ctx, flat, shape, dim, time_dim, concatenate, order, width, mode
     # the library builds the regression filters in float32 and casts them to the input's
     # dtype, so float64 inputs see coefficients like 1/10 at float32 precision
     tol = 1e-6 if dtname == "float64" else 2e-5
-    x = torch.tensor(flat, dtype=DTYPES[dtname]).view(shape)
+    x0 = torch.tensor(flat, dtype=DTYPES[dtname]).view(shape)
+    x = _relayout(x0, layout)
+    if x is None:
+        ctx.count("layout does not exist for this shape (skipped)")
+        return
+    xc = x.clone()
     sig_base = {"api": "feat_deltas", "concatenate": concatenate, "mode": mode}
+    if layout != "as-is":
+        sig_base["layout"] = layout
     try:
         if api == "functional":
-            y = F.feat_deltas(x, dim, time_dim, concatenate, order, width, mode, value)
+            fn = lambda t: F.feat_deltas(t, dim, time_dim, concatenate, order, width, mode, value)  # noqa: E731
         else:
             # a module's buffers follow the module's dtype, as for any torch layer
-            y = M.FeatureDeltas(dim, time_dim, concatenate, order, width, mode, value).to(x.dtype)(x)
+            fn = M.FeatureDeltas(dim, time_dim, concatenate, order, width, mode, value).to(x.dtype)
+        y = fn(x)
+        if not _args_unchanged(ctx, "feat_deltas", case, [(x, xc)]):
+            return
+        if guard:
+            kept = GD.Kept(y)
+            fn(x0.flip(0) * 2.0 + 1.0)
+            if not _kept_unchanged(ctx, "feat_deltas", case, kept, "deltas of an earlier call"):
+                return
     except Exception as e:
         ctx.violation(dict(sig_base, symptom="raises", type=type(e).__name__), case,
                       {"error": str(e)[-300:]})
         return
-    exp, eshape = O.deltas(O.to_dict(x.tolist(), shape), shape, dim, time_dim, concatenate, order,
+    exp, eshape = O.deltas(O.to_dict(x0.tolist(), shape), shape, dim, time_dim, concatenate, order,
                            width, mode, value)
     if tuple(y.shape) != tuple(eshape):
         ctx.violation(dict(sig_base, symptom="wrong-shape"), case,
@@ -482,22 +590,38 @@ def _run_delta_shard(ctx, spec, tier, seed):
 
 
 # ============================================================================= returns
-def _return_batch(ctx, cols, gamma, batch_first, dtname, api):
+def _return_batch(ctx, cols, gamma, batch_first, dtname, api, layout="as-is", guard=False, tol=1e-6):
     """cols: list of N reward sequences (each length T)."""
     N = len(cols)
     T = len(cols[0])
     case = {"kind": "return", "cols": cols, "gamma": gamma, "batch_first": batch_first,
-            "dtype": dtname, "api": api}
+            "dtype": dtname, "api": api, "layout": layout, "guard": guard, "tol": tol}
     ctx.case(1, 1 if (T >= 2 and gamma != 0) else 0)
     r = torch.tensor(cols, dtype=DTYPES[dtname]).view(N, T)
     if not batch_first:
         r = r.t()
+    r0 = r
+    r = _relayout(r, layout)
+    if r is None:
+        ctx.count("layout does not exist for this shape (skipped)")
+        return
+    rc = r.clone()
     sig = {"api": "time_distributed_return", "batch_first": batch_first, "gamma": gamma}
+    if layout != "as-is":
+        sig["layout"] = layout
     try:
         if api == "functional":
-            R = F.time_distributed_return(r, gamma, batch_first)
+            fn = lambda t: F.time_distributed_return(t, gamma, batch_first)  # noqa: E731
         else:
-            R = M.TimeDistributedReturn(gamma, batch_first)(r)
+            fn = M.TimeDistributedReturn(gamma, batch_first)
+        R = fn(r)
+        if not _args_unchanged(ctx, "time_distributed_return", case, [(r, rc)]):
+            return
+        if guard:
+            kept = GD.Kept(R)
+            fn(r0 * 3.0 - 1.0)
+            if not _kept_unchanged(ctx, "time_distributed_return", case, kept, "returns of an earlier call"):
+                return
     except Exception as e:
         ctx.violation(dict(sig, symptom="raises", type=type(e).__name__, empty=T == 0), case,
                       {"error": str(e)[-300:]})
@@ -509,7 +633,7 @@ def _return_batch(ctx, cols, gamma, batch_first, dtname, api):
     exp = [O.returns(c, gamma) for c in cols]
     for n in range(N):
         for t in range(T):
-            if not _close(got[n][t], exp[n][t], 1e-6):
+            if not _close(got[n][t], exp[n][t], tol):
                 ctx.violation(dict(sig, symptom="wrong-return"), case, {"expected": exp, "observed": got})
                 return
     if N == 1:
@@ -536,6 +660,220 @@ def _run_return_shard(ctx, spec, tier, seed):
                             _return_batch(ctx, cols, gamma, batch_first, dtname, api)
     if lo == 0:
         ctx.sample({"part": "returns", "T": T, "N": N, "sequences": len(seqs), "gammas": GAMMAS})
+
+
+# ================================================================ guard passes (mc/guards.py)
+def _run_guard_mvn(ctx, spec, tier, seed):
+    """memory layouts for MVN inputs: every history of the full pool again with the block tensors
+    handed in as offset views / transposed-dense views (reduced: F=2, float32, bessel False)."""
+    rank, pos, dim = spec["rank"], spec["pos"], spec["dim"]
+    chunks = _chunks("quick", seed, 2)
+    ids = sorted(chunks)
+    for layout in LAYOUTS:
+        for how in ("fresh-module", "functional"):
+            _mvn_own(ctx, _frames_of(chunks, ids), rank, pos, dim, "float32", how, layout)
+        for hist in O.histories(ids):
+            _mvn_history(ctx, chunks, hist, rank, pos, dim, False, "float32", "prefix", None, layout)
+    ctx.sample({"part": "guards-mvn", "layouts": LAYOUTS, "rank": rank, "dim": dim})
+
+
+def _run_guard_deltas(ctx, spec, tier, seed):
+    """layouts + kept results for deltas: order 2, the shard's width and pad mode, every
+    (dim,time_dim,concatenate) spelling, T in {1,3,5}, both dtypes, functional and module."""
+    width, mode = spec["width"], spec["mode"]
+    for rank in (2, 3):
+        for dim, time_dim, concatenate in _delta_dims(rank):
+            for T in (1, 3, 5):
+                shape = _delta_shape(rank, T, time_dim % rank)
+                flat = _delta_values(shape, seed)
+                for layout in LAYOUTS:
+                    for dtname in ("float64", "float32"):
+                        for api in ("functional", "module"):
+                            _delta_case(ctx, flat, shape, dim, time_dim, concatenate, 2, width, mode, 0.0,
+                                        dtname, api, layout, True)
+    ctx.sample({"part": "guards-deltas", "width": width, "mode": mode, "layouts": LAYOUTS})
+
+
+def _run_guard_returns(ctx, spec, tier, seed):
+    """layouts + kept results for returns: every r, T<=3, N<=2 (N=1: T<=4)."""
+    N = spec["N"]
+    for T in range(1, 5 if N == 1 else 4):
+        seqs = [list(s) for s in itertools.product(REWARDS, repeat=T)]
+        for i in range(len(seqs)):
+            for j in ([None] if N == 1 else range(len(seqs))):
+                cols = [seqs[i]] if j is None else [seqs[i], seqs[j]]
+                for gamma in GAMMAS:
+                    for batch_first in (False, True):
+                        for li, layout in enumerate(LAYOUTS):
+                            api = "functional" if (i + (j or 0) + li) % 2 == 0 else "module"
+                            dtname = "float32" if (i + li) % 2 == 0 else "float64"
+                            _return_batch(ctx, cols, gamma, batch_first, dtname, api, layout, True)
+    ctx.sample({"part": "guards-returns", "N": N, "layouts": LAYOUTS})
+
+
+def _history_deltas(ctx, seed, order, width):
+    """ONE FeatureDeltas object: input rank and T change from call to call, dim / time_dim /
+    concatenate / pad_mode / value are reassigned through the public attributes, train/eval and
+    float/double are switched; every result must equal the oracle's (= a fresh object's)."""
+    mod = M.FeatureDeltas(order=order, width=width)
+    step = 0
+    for rank in (2, 3, 2):
+        for dim, time_dim, concatenate in _delta_dims(rank):
+            step += 1
+            mode = PAD_MODES[step % 4]
+            T = 1 + (step * 3) % 5
+            if not O.pad_admitted(T, order * width, mode):
+                mode = "replicate"
+            value = 1.5 if (mode == "constant" and step % 8 < 4) else 0.0
+            dtname = "float64" if (step // 7) % 2 else "float32"
+            shape = _delta_shape(rank, T, time_dim % rank)
+            flat = _delta_values(shape, seed + step)
+            mod.dim, mod.time_dim, mod.concatenate, mod.pad_mode, mod.value = dim, time_dim, concatenate, mode, value
+            mod.train(step % 3 == 0)
+            mod.to(DTYPES[dtname])
+            case = {"kind": "history-deltas", "seed": seed, "order": order, "width": width, "step": step}
+            ctx.case(1, 1)
+            x = torch.tensor(flat, dtype=DTYPES[dtname]).view(shape)
+            sig = {"api": "FeatureDeltas", "history": "one object, attributes reassigned"}
+            try:
+                y = mod(x)
+                fresh = M.FeatureDeltas(dim, time_dim, concatenate, order, width, mode, value).to(x.dtype)(x)
+            except Exception as e:
+                ctx.violation(dict(sig, symptom="raises", type=type(e).__name__), case,
+                              {"error": str(e)[-300:], "step": step})
+                return
+            exp, eshape = O.deltas(O.to_dict(x.tolist(), shape), shape, dim, time_dim, concatenate, order,
+                                   width, mode, value)
+            tol = 1e-6 if dtname == "float64" else 2e-5
+            ok = tuple(y.shape) == tuple(eshape) and all(
+                _close(O.nested_get(y.tolist(), idx), exp[idx], tol) for idx in O.indices(eshape))
+            if not ok or y.shape != fresh.shape or not torch.allclose(y, fresh, rtol=1e-6, atol=1e-6):
+                ctx.violation(dict(sig, symptom="reused-object-differs-from-fresh-object"), case,
+                              {"step": step, "dim": dim, "time_dim": time_dim, "concatenate": concatenate,
+                               "mode": mode, "T": T, "observed": y.tolist(), "fresh": fresh.tolist()})
+                return
+
+
+def _history_mvn(ctx, seed):
+    """ONE MeanVarianceNormalization object over a long life: blocks of rank 2 and rank 3 mixed in one
+    accumulation, store, forward on both ranks, dim and eps reassigned through the public attributes,
+    train/eval switched, a second accumulation round."""
+    api = "MeanVarianceNormalization"
+    chunks = _chunks("quick", seed, 3)
+    ids = sorted(chunks)
+    for bessel in (False, True):
+        case = {"kind": "history-mvn", "seed": seed, "bessel": bessel}
+        sig = {"api": api, "history": "one object, ranks mixed, attributes reassigned", "bessel": bessel}
+        ctx.case(1, 1)
+        try:
+            mvn = M.MeanVarianceNormalization(-1)
+            for n, c in enumerate(ids):
+                mvn.train(n % 2 == 0)
+                mvn.accumulate(_layout(chunks[c], 2 + n % 2, 1 + n % 2, torch.float64))  # feature axis last
+            mvn.store(bessel=bessel)
+            pooled = _frames_of(chunks, ids)
+            mean, std, zero = O.pooled_stats(pooled, bessel)
+            if not _cmp_stats(ctx, api, case, mvn.mean, mvn.std, pooled, bessel, {"after": "mixed-ranks"}):
+                continue
+            for rank, pos, dim in ((2, 1, -1), (3, 2, -1), (2, 0, 0), (3, 1, 1), (3, 0, -3), (2, 1, 1)):
+                mvn.dim = dim
+                mvn.eval() if rank == 2 else mvn.train()
+                y = mvn(_layout(pooled, rank, pos, torch.float64))
+                if not _check_normalised(ctx, api, dict(case, dim=dim, rank=rank), _unlayout(y, pos, 3), pooled,
+                                         mean, std, zero, bessel, 1e-9, False):
+                    break
+            # eps is a public attribute too: max(std, eps) with eps = 4
+            mvn.dim, mvn.eps = -1, 4.0
+            y = _unlayout(mvn(_layout(pooled, 2, 1, torch.float64)), 1, 3)
+            exp = O.normalise(pooled, mean, std, 4.0)
+            if any(not _close(y[i][f], exp[i][f], 1e-9) for i in range(len(pooled)) for f in range(3)):
+                ctx.violation(dict(sig, symptom="eps-attribute-ignored"), case, {"expected": exp, "observed": y})
+            # second round on the same object with another dim
+            mvn.dim, mvn.eps = 0, EPS
+            sub = ids[1:3]
+            for c in sub:
+                mvn.accumulate(_layout(chunks[c], 2, 0, torch.float32))
+            mvn.store(bessel=bessel)
+            _cmp_stats(ctx, api, case, mvn.mean, mvn.std, _frames_of(chunks, sub), bessel, {"after": "second-round"})
+        except Exception as e:
+            ctx.violation(dict(sig, symptom="raises", type=type(e).__name__), case, {"error": str(e)[-300:]})
+
+
+def _history_returns(ctx, seed):
+    """ONE TimeDistributedReturn object: gamma and batch_first reassigned, T and N changing."""
+    mod = M.TimeDistributedReturn(0.5, False)
+    rng = random.Random(f"c18-hist-ret-{seed}")
+    step = 0
+    for T in (3, 1, 4, 2, 5):
+        for N in (2, 1, 3):
+            for gamma in GAMMAS:
+                for batch_first in (False, True):
+                    step += 1
+                    mod.gamma, mod.batch_first = gamma, batch_first
+                    mod.train(step % 2 == 0)
+                    cols = [[rng.choice(REWARDS) for _ in range(T)] for _ in range(N)]
+                    r = torch.tensor(cols, dtype=torch.float32)
+                    r = r if batch_first else r.t()
+                    case = {"kind": "history-returns", "seed": seed, "step": step}
+                    ctx.case(1, 1)
+                    try:
+                        R = mod(r)
+                    except Exception as e:
+                        ctx.violation({"api": "TimeDistributedReturn", "symptom": "raises", "type": type(e).__name__,
+                                       "history": "one object"}, case, {"error": str(e)[-300:]})
+                        return
+                    got = (R if batch_first else R.t()).tolist()
+                    exp = [O.returns(c, gamma) for c in cols]
+                    if any(not _close(got[n][t], exp[n][t], 1e-6) for n in range(N) for t in range(T)):
+                        ctx.violation({"api": "TimeDistributedReturn", "symptom": "reused-object-differs-from-oracle",
+                                       "history": "one object, attributes reassigned"}, case,
+                                      {"step": step, "gamma": gamma, "batch_first": batch_first,
+                                       "expected": exp, "observed": got})
+                        return
+
+
+def _run_history(ctx, spec, tier, seed):
+    which = spec["which"]
+    if which == "deltas":
+        _history_deltas(ctx, seed, spec["order"], spec["width"])
+    elif which == "mvn":
+        _history_mvn(ctx, seed)
+    else:
+        _history_returns(ctx, seed)
+    ctx.sample({"part": "history", "spec": spec})
+
+
+def _run_large(ctx, spec, tier, seed):
+    """one deliberately larger instance per function, against the same plain oracles."""
+    which = spec["which"]
+    rng = random.Random(f"c18-large-{seed}-{which}")
+    if which == "mvn":
+        sizes = (1, 97, 240, 3, 160, 64, 35)  # 600 frames in 7 blocks, 13 coefficients
+        chunks = {c: [[rng.randint(-24, 24) / 8.0 for _ in range(13)] for _ in range(n)]
+                  for c, n in enumerate(sizes)}
+        for bessel in (False, True):
+            for dtname in ("float32", "float64"):
+                for rank, pos, dim in ((2, 1, -1), (3, 0, 0), (3, 1, -2)):
+                    _mvn_history(ctx, chunks, [[3, 1], [0], [6, 2, 4], [5]], rank, pos, dim, bessel, dtname, "prefix")
+    elif which == "deltas":
+        shape = (300, 13)
+        flat = [rng.randint(-16, 16) / 4.0 for _ in range(300 * 13)]
+        for mode in PAD_MODES:
+            for order, width in ((2, 2), (3, 3)):
+                for dim, time_dim, concatenate in ((-1, 0, True), (0, -2, False), (2, 0, False)):
+                    for api in ("functional", "module"):
+                        _delta_case(ctx, flat, shape, dim, time_dim, concatenate, order, width, mode, 0.0,
+                                    "float64", api, "as-is", True)
+    else:
+        T, N = 40, 20
+        cols = [[rng.choice(REWARDS) for _ in range(T)] for _ in range(N)]
+        for batch_first in (False, True):
+            for api in ("functional", "module"):
+                # float32 where no catastrophic cancellation can occur, float64 for gamma = 2
+                for gamma, dtname, tol in ((0.0, "float32", 1e-6), (0.5, "float32", 1e-5), (1.0, "float32", 1e-6),
+                                           (2.0, "float64", 1e-9)):
+                    _return_batch(ctx, cols, gamma, batch_first, dtname, api, "as-is", True, tol)
+    ctx.sample({"part": "large", "which": which})
 
 
 # =============================================================================== driver
@@ -565,9 +903,27 @@ def shards(tier, seed):
     step = nseq // 16
     for lo in range(0, nseq, step):
         out.append({"part": "returns", "T": 4, "N": 2, "lo": lo, "hi": min(nseq, lo + step)})
+    # ---- guard passes: layouts / kept results / object histories / one larger instance
+    for rank in (2, 3):
+        for pos, dim in _dim_spellings(rank):
+            out.append({"part": "guards-mvn", "rank": rank, "pos": pos, "dim": dim})
+    for width in (1, 2):
+        for mode in PAD_MODES:
+            out.append({"part": "guards-deltas", "width": width, "mode": mode})
+    out.append({"part": "guards-returns", "N": 1})
+    out.append({"part": "guards-returns", "N": 2})
+    for order, width in ((0, 1), (1, 1), (1, 2), (2, 1), (2, 2)):
+        out.append({"part": "history", "which": "deltas", "order": order, "width": width})
+    out.append({"part": "history", "which": "mvn"})
+    out.append({"part": "history", "which": "returns"})
+    for which in ("mvn", "deltas", "returns"):
+        out.append({"part": "large", "which": which})
     # heavy shards first so the pool stays busy
-    weight = {"returns": 0, "deltas": 1, "mvn": 2, "cli": 3}
-    out.sort(key=lambda s: (0 if (s["part"] == "returns" and s.get("hi")) else 1, weight[s["part"]]))
+    weight = {"returns": 0, "deltas": 1, "mvn": 2, "cli": 3, "guards-returns": 0, "guards-deltas": 1,
+              "guards-mvn": 2, "history": 3, "large": 1}
+    # (the cheap history / large parts come first so that a tight wall budget can never skip them)
+    out.sort(key=lambda s: (-1 if s["part"] in ("history", "large") else
+                            0 if (s["part"] == "returns" and s.get("hi")) else 1, weight[s["part"]]))
     return out
 
 
@@ -580,6 +936,16 @@ def run_shard(spec, tier, seed):
         _run_cli_shard(ctx, spec, tier, seed)
     elif part == "deltas":
         _run_delta_shard(ctx, spec, tier, seed)
+    elif part == "guards-mvn":
+        _run_guard_mvn(ctx, spec, tier, seed)
+    elif part == "guards-deltas":
+        _run_guard_deltas(ctx, spec, tier, seed)
+    elif part == "guards-returns":
+        _run_guard_returns(ctx, spec, tier, seed)
+    elif part == "history":
+        _run_history(ctx, spec, tier, seed)
+    elif part == "large":
+        _run_large(ctx, spec, tier, seed)
     else:
         _run_return_shard(ctx, spec, tier, seed)
     return ctx
@@ -591,9 +957,10 @@ def replay(case):
     if kind == "mvn":
         chunks = {int(k): v for k, v in case["chunks"].items()}
         _mvn_history(ctx, chunks, case["history"], case["rank"], case["pos"], case["dim"],
-                     case["bessel"], case["dtype"], case["mode"])
+                     case["bessel"], case["dtype"], case["mode"], None, case.get("layout", "as-is"))
     elif kind == "own":
-        _mvn_own(ctx, case["frames"], case["rank"], case["pos"], case["dim"], case["dtype"], case["how"])
+        _mvn_own(ctx, case["frames"], case["rank"], case["pos"], case["dim"], case["dtype"], case["how"],
+                 case.get("layout", "as-is"))
     elif kind == "cli":
         chunks = {int(k): v for k, v in case["chunks"].items()}
         try:
@@ -604,9 +971,16 @@ def replay(case):
     elif kind == "delta":
         _delta_case(ctx, case["flat"], tuple(case["shape"]), case["dim"], case["time_dim"],
                     case["concatenate"], case["order"], case["width"], case["mode"], case["value"],
-                    case["dtype"], case["api"])
+                    case["dtype"], case["api"], case.get("layout", "as-is"), case.get("guard", False))
     elif kind == "return":
-        _return_batch(ctx, case["cols"], case["gamma"], case["batch_first"], case["dtype"], case["api"])
+        _return_batch(ctx, case["cols"], case["gamma"], case["batch_first"], case["dtype"], case["api"],
+                      case.get("layout", "as-is"), case.get("guard", False), case.get("tol", 1e-6))
+    elif kind == "history-deltas":
+        _history_deltas(ctx, case["seed"], case["order"], case["width"])
+    elif kind == "history-mvn":
+        _history_mvn(ctx, case["seed"])
+    elif kind == "history-returns":
+        _history_returns(ctx, case["seed"])
     else:
         raise ValueError(kind)
     return ctx
